@@ -205,6 +205,64 @@ def vector_task(key):
     return n, viols[:3]
 
 
+SWEEP_GRAPHS = {'quick': {'UnitSquare': 2, 'Circle': 2, 'LShape': 1, 'UnitInterval': 2},
+                'thorough': {'UnitSquare': 3, 'Circle': 3, 'LShape': 2, 'PiSquare': 2, 'UnitInterval': 3}}
+
+
+def sweep_task(item):
+    """Sweep order on LOCALLY REFINED meshes: one long-lived operator per reachable mesh state (bisection BFS), and for each
+    (t, x_hat) ALL trial leaves one after the other (the order of evaluate_vector and of the estimators' residual), each value
+    judged against the independent oracle at the tolerance of its class; then evaluate_vector at the same point, entry by
+    entry against the oracle as well.  `chunk` fixes the element and varies the point; here the point is fixed and the element
+    varies, on meshes whose neighbouring leaves have different sizes - what one evaluation leaves behind on the operator must
+    not change the next."""
+    from mc import meshmc
+    from src.single_layer import SingleLayerOperator
+    cfgname, h = item
+    m = meshmc.build(meshmc.CFGS[cfgname], h)
+    g = m.gamma_space
+    L = float(g.gamma_length)
+    orc = oracle.EntryOracle(g)
+    SL = SingleLayerOperator(m)
+    leaves = list(m.leaf_elements)
+    pieces = [orc.piece(e) for e in leaves]
+    T = max(e.time_interval[1] for e in leaves)
+    ts = sorted(set(x for e in leaves for x in e.time_interval if x > 0) | {0.3 * T, 0.77 * T})
+    pts = sorted(set([L / 7, 0.61 * L] + [(e.space_interval[1] + 0.37 * (e.space_interval[1] - e.space_interval[0])) % L for e in leaves][:4]))
+    out = {'n': 0, 'viols': []}
+    for t in ts:
+        for xh in pts:
+            x = g.eval(xh).reshape(2, 1)
+            try:
+                vals = [float(SL.evaluate(e, t, xh, x)) for e in leaves]
+                vec = [float(v) for v in SL.evaluate_vector(t, xh)]
+            except Exception as ex:  # noqa: BLE001
+                out['viols'].append(('sweep-raised', {'curve': cfgname, 'history': h, 't': t, 'x_hat': xh, 'exc': repr(ex), 'fn': 'evaluate'}))
+                continue
+            for j, e in enumerate(leaves):
+                a, b = e.time_interval
+                taus = [y for y in (t - a, t - b) if y > 0]
+                if not taus:
+                    continue  # acausal: C04
+                if e.h_x**2 / min(taus) > RATIO * (1 + 1e-12):
+                    continue
+                xa, xb = e.space_interval
+                inside = xa < xh < xb
+                if inside and (xh - xa < 2e-5 or xb - xh < 2e-5):
+                    continue
+                ref = oracle.pointwise(t, e.time_interval, e.space_interval, pieces[j], x, xhat=xh if inside else None)
+                den = max(abs(ref), 1e-9)
+                cl, tol = classify(g, xh, xa, xb)
+                for fn, val in (('evaluate', vals[j]), ('evaluate_vector', vec[j] if j < len(vec) else float('nan'))):
+                    out['n'] += 1
+                    err = abs(val - ref) / den
+                    if not err <= tol:
+                        out['viols'].append(('sweep-' + fn + '-' + cl, {'curve': cfgname, 'history': h, 'trial': [e.time_interval, e.space_interval], 't': t,
+                                                                      'x_hat': xh, 'class': cl, 'exact': ref, 'value': val, 'err': err, 'tol': tol, 'fn': fn}))
+    out['viols'] = out['viols'][:3]
+    return out
+
+
 def integral_task(item):
     """int_test evaluate(trial) = bilform(trial, test), within the bound implied by the pointwise tolerances."""
     key, lo, hi = item
@@ -307,6 +365,17 @@ def run(ctx):
         nv += cnt
         for tag, v in viols:
             ctx.violation({'tag': tag, 'curve': v['curve'], 'fn': 'evaluate_vector'}, '{}: {}'.format(tag, v), dict(v, fn='evaluate_vector'))
+    from mc import meshmc
+    sitems = [(c, h) for c, d in SWEEP_GRAPHS[ctx.tier].items() for h in meshmc.all_states(ctx, c, d, key='leaf')]
+    nS = 0
+    for it, r in zip(sitems, pmap(sweep_task, sitems, ctx.jobs)):
+        nS += r['n']
+        for tag, v in r['viols']:
+            ctx.violation({'tag': tag, 'curve': v['curve'], 'fn': v['fn']}, '{} (all leaves of a locally refined mesh at one point, one operator): {}'.format(tag, v),
+                          dict(v, part='sweep'))
+    if not nS:
+        raise common.HarnessError('vacuity guard C07: sweep clause empty')
+    n += nS
     iitems = []
     for key in INTEG[ctx.tier]:
         g, U, els, *_ = get_universe(key)
@@ -328,7 +397,7 @@ def run(ctx):
     cov = {'evaluations': n + nv + ni, 'distinct_nontrivial': n + ni,
            'rule': 'one case = (trial element, time, point, function) of the alphabets, or (test, trial) pair for the integral clause; distinct by construction',
            'universe_elements': sizes, 'class_count_and_worst_relative_error': {k: [v[0], float('%.3g' % v[1])] for k, v in sorted(classes.items())},
-           'evaluate_vector_entries_bitwise': nv, 'cross_curve_histories_in_fresh_processes': len(hitems), 'history_evaluations': nH, 'integral_pairs': ni, 'integral_worst_fraction_of_allowed': worstI,
+           'evaluate_vector_entries_bitwise': nv, 'sweep_order_mesh_states': len(sitems), 'sweep_order_evaluations': nS, 'cross_curve_histories_in_fresh_processes': len(hitems), 'history_evaluations': nH, 'integral_pairs': ni, 'integral_worst_fraction_of_allowed': worstI,
            'gauss_order_of_foreign_nodes': gorder,
            'samples': [{'trial': [[0.0, 1.0], [0.0, 0.5]], 't': 0.015625, 'x_hat': 0.505, 'class': 'far'},
                        {'trial': [[0.0, 1.0], [3.5, 4.0]], 't': 1.0, 'x_hat': 0.0, 'class': 'closed (through the seam)'}],
@@ -339,6 +408,12 @@ def run(ctx):
 def replay(ctx, data):
     class E:
         pass
+    if data.get('part') == 'sweep':
+        h = tuple((tuple(r), ax) for r, ax in data['history'])
+        r = sweep_task((data['curve'], h))
+        for tag, v in r['viols']:
+            print('  ', tag, v)
+        return not r['viols']
     g = curve(data['curve'])
     orc = oracle.EntryOracle(g)
     if data.get('fn') in ('evaluate', 'evaluate_exact'):
